@@ -120,13 +120,17 @@ def run(ctx):
             keys.update(_re.findall(r"\.get\(\s*\"([^\"]+)\"", m.group(1)))
         uses_settings = "get_client_settings(" in src
         raw_reads[modname] = {"keys": sorted(keys), "settings": uses_settings}
-    expected_reads = {"shorter_results": {"keys": ["ariadne-codegen", "fragments_module_name", "tool"], "settings": False},
-                      "extract_operations": {"keys": ["ariadne-codegen", "extract-operations", "operations_module_name", "tool"],
-                                             "settings": True},
+    expected_reads = {"shorter_results": {"keys": ["fragments_module_name"], "settings": False},
+                      "extract_operations": {"keys": ["extract-operations", "operations_module_name"], "settings": True},
                       "client_forward_refs": {"keys": [], "settings": False},
                       "no_reimports": {"keys": [], "settings": False}}
-    accepted_reads = dict(expected_reads, shorter_results={"keys": ["fragments_module_name"], "settings": False},
-                          extract_operations={"keys": ["extract-operations", "operations_module_name"], "settings": True})
+    accepted_reads = expected_reads
+    # since /repo 13e2fa6 the options are read through config.get_section (the section the settings use): a read that
+    # names the "tool" table again would bypass the legacy section
+    for modname, mod in (("shorter_results", shorter_results), ("extract_operations", extract_operations)):
+        run.count()
+        if "get_section" not in inspect.getsource(mod):
+            run.broken("K2 raw configuration reads", f"contrib/{modname}.py no longer reads its options through config.get_section")
     run.extra["plugin_raw_config_reads"] = raw_reads
     for k, v in raw_reads.items():
         run.count()
